@@ -43,6 +43,27 @@ def job(arg):
 
     # ------------------------------------------------------------ draw
     items = []          # (entry-of-render, req, meta)
+    if tag == "boundary":
+        # deterministic: calendar / week-year / range boundaries x every complete date form x every time
+        # form x {normal, 24:00} x a few offsets
+        n = 0
+        dates = [(1, 1, 1), (1, 1, 7), (1, 12, 31), (9999, 12, 31), (9999, 12, 30), (9999, 12, 27), (9999, 1, 1),
+                 (2000, 2, 29), (1900, 2, 28), (1900, 3, 1), (2100, 2, 28), (2016, 12, 31), (2015, 12, 31),
+                 (2016, 1, 3), (2010, 1, 3), (2009, 12, 31), (2008, 12, 29), (2020, 12, 31), (2021, 1, 3),
+                 (2004, 12, 31), (2005, 1, 1), (2005, 1, 2), (2014, 1, 1), (2014, 12, 28), (2014, 12, 29)]
+        for (y, m, d) in dates:
+            for df in range(10):
+                for tf in range(7):
+                    for e in (20, 21):
+                        for off in ((0, 0, 0, 0), (1, 0, 0, 0), (4, 1, 23, 59), (3, 0, 0, 0), (2, 0, 14, 0)):
+                            ht = 1 if I.COMPLETE[df] else 0
+                            if not ht and (tf or e == 21 or off[0]):
+                                continue
+                            k = 7 if tf >= 5 else 0
+                            fmt = (None, df, ht, tf, (y + tf) % 2, k, 84, [0] if k else [])
+                            dt = (y, m, d, 23, 59, 59, 999999)
+                            items.append(("iso", I.render_req(e, fmt, dt, off),
+                                          {"fmt": fmt, "dt": dt, "off": off, "e": e}))
     for i in range(n):
         bad = r.random() < 0.12
         u = r.random()
@@ -275,12 +296,12 @@ def main():
         for b in iso_bad[:3]:
             soft.append(dict(b, kind="spec sanity: render_iso differs from datetime.isoformat()", input=None))
         if tier == "quick":
-            nproc, jobs = 4, [("q%d" % i, 2500) for i in range(8)]
+            nproc, jobs = 4, [("q%d" % i, 5000) for i in range(8)]
         else:
             nproc, jobs = 12, [("t%d" % i, 25000) for i in range(60)]
         # one small shard under coverage.py (in-process), the rest in the pool
         first, cov_summary = I.measure_anchor_coverage(lambda: job(("cov", 1500)))
-        results = [first] + I.run_pool(job, jobs, nproc)
+        results = [first] + I.run_pool(job, [("boundary", 0)] + jobs, nproc)
         for res in results:
             for k in ("evals", "draws", "in_domain", "model_diff", "spec_diff", "kind_diff", "pyref_checked",
                       "pyref_diff", "spec_incoherent"):
